@@ -15,7 +15,7 @@ using namespace CDNS;
 static const char* EXT[] = {"", ".gz", ".xz"};
 
 struct Chunk { size_t size; int cls; uint64_t seed; };
-struct Step { bool rotate; Chunk ch; bool bad_first = false; };   // bad_first: the rotation is first attempted onto a destination that cannot be opened
+struct Step { bool rotate; Chunk ch; bool bad_first = false; bool same = false; };   // same: the rotation names the output that is already open (named outputs: the finished file is replaced by the new one)   // bad_first: the rotation is first attempted onto a destination that cannot be opened
 
 static void fill(std::string& out, const Chunk& c) {
   size_t base = out.size();
@@ -35,7 +35,8 @@ static void fill(std::string& out, const Chunk& c) {
 struct Target {
   bool named; std::string dir; unsigned n = 0; int comp;
   std::vector<std::string> finals;   // path under which each output must be found
-  std::string next_name() { std::string b = dir + "/w" + std::to_string(comp) + "_" + std::to_string(n++); finals.push_back(named ? b + EXT[comp] : b); return b; }
+  std::string last_base;
+  std::string next_name(bool same = false) { std::string b = same && !last_base.empty() ? last_base : dir + "/w" + std::to_string(comp) + "_" + std::to_string(n++); last_base = b; finals.push_back(named ? b + EXT[comp] : b); return b; }
   int open_fd(const std::string& p) { int fd = ::open(p.c_str(), O_WRONLY | O_CREAT | O_TRUNC, 0644); if (fd < 0) { perror("open"); abort(); } return fd; }
 };
 
@@ -51,8 +52,8 @@ static std::unique_ptr<BaseCborOutputWriter> make_writer(Target& t) {
   if (t.comp == 1) return std::unique_ptr<BaseCborOutputWriter>(new GzipCborOutputWriter(fd));
   return std::unique_ptr<BaseCborOutputWriter>(new XzCborOutputWriter(fd));
 }
-static void rotate(BaseCborOutputWriter& w, Target& t) {
-  std::string b = t.next_name();
+static void rotate(BaseCborOutputWriter& w, Target& t, bool same = false) {
+  std::string b = t.next_name(same && t.named);
   if (t.named) w.rotate_output(boost::any(b)); else w.rotate_output(boost::any(t.open_fd(b)));
 }
 // rotation onto a destination that cannot be opened: must be refused with a CborOutputException (documented @throw)
@@ -77,7 +78,7 @@ static void run_plan(Case& cs, const std::vector<Step>& plan, int comp, bool nam
           bool rc_ = rotate_bad(*wc, tc), rp_ = rotate_bad(*wp, tp);
           VF_CHECK(rc_ == rp_, "sig=c14.bad_destination rotation onto a destination that cannot be opened: compressed writer " << (rc_ ? "threw CborOutputException" : "did not throw") << ", plain writer " << (rp_ ? "threw" : "did not throw") << " : " << desc);
         }
-        rotate(*wc, tc); rotate(*wp, tp); expect.emplace_back(); continue;
+        rotate(*wc, tc, s.same); rotate(*wp, tp, s.same); expect.emplace_back(); continue;
       }
       buf.clear();
       fill(buf, s.ch);
@@ -87,6 +88,10 @@ static void run_plan(Case& cs, const std::vector<Step>& plan, int comp, bool nam
     }
   }  // destruction closes the last output
   for (size_t i = 0; i < expect.size(); i++) {
+    // an output whose name was used again by a later rotation has been replaced by that later output
+    bool superseded = false;
+    for (size_t j = i + 1; j < expect.size(); j++) if (tc.finals[j] == tc.finals[i]) superseded = true;
+    if (superseded) { cs.st.cnt("outputs_replaced_by_a_rotation_onto_the_open_name"); continue; }
     std::string rawc, rawp, plain, err;
     std::string where = "output #" + std::to_string(i) + " of " + std::to_string(expect.size()) + " (" + tc.finals[i] + ")";
     bool okc = read_file(tc.finals[i], rawc), okp = read_file(tp.finals[i], rawp);
@@ -115,7 +120,7 @@ static void c14_plan(Case& cs) {
   std::string desc = std::string(comp == 1 ? "gzip" : "xz") + (named ? " name" : " fd") + ":";
   for (unsigned i = 0; i < n; i++) {
     Step s; s.rotate = c.range(0, 5) == 0;
-    if (s.rotate) { s.bad_first = c.range(0, 3) == 0; rots++; desc += s.bad_first ? " R(bad,then good)" : " R"; if (s.bad_first) cs.st.cls("rotation_onto_unopenable_destination_first"); plan.push_back(s); continue; }
+    if (s.rotate) { s.bad_first = c.range(0, 3) == 0; s.same = named && !s.bad_first && c.range(0, 3) == 0; rots++; desc += s.bad_first ? " R(bad,then good)" : s.same ? " R(onto the open name)" : " R"; if (s.bad_first) cs.st.cls("rotation_onto_unopenable_destination_first"); plan.push_back(s); continue; }
     uint64_t m = c.range(0, 7);
     size_t sz;
     if (m == 0) sz = 0; else if (m == 1) sz = 1; else if (m == 2) sz = c.pick<size_t>({2047, 2048, 2049, 4096, 65535, 65536});
